@@ -60,11 +60,41 @@ func pow(b, e int) int {
 }
 
 func exhaustive(t *testing.T, name string, mode radMode, depth int) {
+	exhaustiveOver(t, name, mode, depth, alphabet(mode != radNone), []step{padi(pA), padr(pA)}, "A:PADI A:PADR")
+}
+
+// discoveryAlphabet: the discovery stage of clause (2).  Session 1 was opened by A with the Host-Uniq value X
+// (pid 1234) that B uses as well; the letters are the PADI / PADR forms that reference or collide with a session
+// through their tags, the owner's own retransmission, and the four session-stage letters that walk session 1
+// through every state (LCP Negotiation -> Authentication -> IPCP Negotiation -> Established) or end it.
+func discoveryAlphabet() []letter {
+	x := func(k frameKind, ck int) func(p int) step {
+		return func(p int) step {
+			return step{Kind: k, Src: p, Ident: 7, Tags: discTags{HU: huShared1, Cookie: ck, Peer: 1 - p}}
+		}
+	}
+	return []letter{
+		{"PADI(hu=X)", x(kPADI, ckOwn)},
+		{"PADR(hu=X,cookie=own)", x(kPADR, ckOwn)},
+		{"PADR(hu=X,cookie=of-the-other-peer)", x(kPADR, ckOther)},
+		{"PADR(hu=X,cookie=stale)", x(kPADR, ckStale)},
+		{"PADR(tags of session 1)", func(p int) step { return step{Kind: kPADRCopy, Src: p, SID: 1} }},
+		{"PADR(tags of session 2)", func(p int) step { return step{Kind: kPADRCopy, Src: p, SID: 2} }},
+		{"PADR(no Host-Uniq)", func(p int) step {
+			return step{Kind: kPADR, Src: p, Ident: 7, Tags: discTags{HU: huAbsent, Cookie: ckOwn}}
+		}},
+		{"PADT(1)", func(p int) step { return sf(kPADT, p, 1) }},
+		{"LCPack(1)", func(p int) step { return sf(kLCPAck, p, 1) }},
+		{"PAPgood(1)", func(p int) step { return pap(p, 1, radAccept) }},
+		{"IPCPack(1)", func(p int) step { return sf(kIPCPAck, p, 1) }},
+	}
+}
+
+func exhaustiveOver(t *testing.T, name string, mode radMode, depth int, letters []letter, preamble []step, preambleText string) {
 	rs := scriptedRadius(t)
 	// one goroutine does all the work; allocation-heavy: fewer Ps and a lazier GC cut runtime overhead
 	defer runtime.GOMAXPROCS(runtime.GOMAXPROCS(2))
 	defer debug.SetGCPercent(debug.SetGCPercent(200))
-	letters := alphabet(mode != radNone)
 	nsym := 2 * len(letters) // symbol = letter*2 + (0 owner, 1 foreign)
 	total := pow(nsym, depth)
 	shard, shards := vstat.Shard()
@@ -75,8 +105,8 @@ func exhaustive(t *testing.T, name string, mode radMode, depth int) {
 	}
 	sub := pow(nsym, depth-pre)
 	decode := func(i int) []step {
-		st := make([]step, 0, depth+2)
-		st = append(st, padi(pA), padr(pA))
+		st := make([]step, 0, depth+len(preamble))
+		st = append(st, preamble...)
 		for d := depth - 1; d >= 0; d-- {
 			sym := (i / pow(nsym, d)) % nsym
 			st = append(st, letters[sym/2].mk(sym%2)) // peers: 0 = A (owner), 1 = B
@@ -114,7 +144,7 @@ func exhaustive(t *testing.T, name string, mode radMode, depth int) {
 				res := runStepsOpt(spec, rs, rc, synctest.Wait, false, true)
 				executed++
 				if res.maxSessions == 0 {
-					t.Fatalf("INCONCLUSIVE: the preamble A:PADI A:PADR no longer creates a session; the enumeration would be vacuous")
+					t.Fatalf("INCONCLUSIVE: the preamble %s no longer creates a session; the enumeration would be vacuous", preambleText)
 				}
 				if res.nontrivial {
 					ntCount++
@@ -127,7 +157,7 @@ func exhaustive(t *testing.T, name string, mode radMode, depth int) {
 						return
 					}
 					// the verdict depends only on steps[0..at]: skip every sequence sharing that prefix
-					k := res.at - 2 // index within the enumerated part
+					k := res.at - len(preamble) // index within the enumerated part
 					if k >= 0 {
 						w := pow(nsym, depth-1-k)
 						skip = w - i%w
@@ -153,7 +183,7 @@ func exhaustive(t *testing.T, name string, mode radMode, depth int) {
 	}
 	vstat.Class("exhaustive:"+name+":nontrivial-all", ntCount)
 	vstat.Class("exhaustive:"+name+":pruned-behind-listed-finding", pruned)
-	vstat.Note(fmt.Sprintf("exhaustive/%s/shard%dof%d", name, shard, shards), fmt.Sprintf("depth %d over %d letters x {owner,foreign} after A:PADI A:PADR = %d sequences in total; shard %d/%d executed %d, skipped %d behind a prefix that ends in a listed finding; fingerprints kept for 1/64 of the non-trivial ones", depth, len(letters), total, shard, shards, executed, pruned))
+	vstat.Note(fmt.Sprintf("exhaustive/%s/shard%dof%d", name, shard, shards), fmt.Sprintf("depth %d over %d letters x {owner,foreign} after %s = %d sequences in total; shard %d/%d executed %d, skipped %d behind a prefix that ends in a listed finding; fingerprints kept for 1/64 of the non-trivial ones", depth, len(letters), preambleText, total, shard, shards, executed, pruned))
 	vstat.Exhaustive(true)
 }
 
@@ -165,4 +195,15 @@ func TestPropExhaustive(t *testing.T) {
 // TestPropExhaustiveRadius: RADIUS configured, PAP good = Access-Accept, PAP bad = Access-Reject; depth 3 / 5.
 func TestPropExhaustiveRadius(t *testing.T) {
 	exhaustive(t, "radius", radLive, vstat.Scale(3, 5))
+}
+
+// TestPropExhaustiveDiscovery: clause (2) on the discovery stage, bounded-exhaustively.  After
+// A:PADI(hu=X) A:PADR(hu=X) (session 1, owner A) every sequence of length 4 (quick) / 5 (thorough) over
+// discoveryAlphabet() x {A, B}.  Depth 4 reaches "A authenticates, IPCP opens, session Established, then B's
+// PADR / PADI with A's Host-Uniq, A's cookie or all of A's tags" and every shorter state before the attack;
+// also B opening session 2 and A doing the same to it.
+func TestPropExhaustiveDiscovery(t *testing.T) {
+	x := discTags{HU: huShared1, Cookie: ckOwn}
+	pre := []step{{Kind: kPADI, Src: pA, Ident: 7, Tags: x}, {Kind: kPADR, Src: pA, Ident: 7, Tags: x}}
+	exhaustiveOver(t, "discovery", radNone, vstat.Scale(4, 5), discoveryAlphabet(), pre, "A:PADI(hu=X) A:PADR(hu=X)")
 }
